@@ -77,7 +77,7 @@ PROPS = {
     "C10": dict(
         gen=[dict(module="Gen_RData", cfg="Gen_RData.cfg", cfg_thorough="Gen_RData_thorough.cfg", out="rdata_cases.ndjson")],
         topic="rdata",
-        rules=["NoPanic", "EnvelopeErr", "ParseEqRef", "MustAccept", "BuildOk", "PlainCanonical"],
+        rules=["NoPanic", "EnvelopeErr", "ParseEqRef", "MustAccept", "BuildOk", "PlainCanonical", "SvcbSetters"],
         shards=12,
     ),
     "C11": dict(
